@@ -617,40 +617,10 @@ func (g *gen) tables() {
 	sb.WriteString("(** per registered enum validator: tag; type; values accepted by the isValid switch; declared constants of that type; switch shape understood *)\nDefinition enum_tables : list (string * string * list string * list string * bool) := [")
 	firstE := true
 	for _, r := range regs {
-		p := ix.pkgs[r.pkg]
-		if p == nil || strings.Contains(r.fn, ".") && !strings.HasPrefix(r.fn, "types.") {
+		vals, typ, declared, ok, use := g.enumRow(ix, r)
+		if !use {
 			continue
 		}
-		fn := r.fn
-		pp := p
-		if strings.HasPrefix(fn, "types.") { // function of the version's types package
-			fn = strings.TrimPrefix(fn, "types.")
-			for _, f := range p.files {
-				if rel, ok := g.importsOf(f)["types"]; ok {
-					pp = ix.pkgs[rel]
-				}
-			}
-		}
-		vals, typ, ok := g.acceptedOf(ix, pp, fn)
-		var declared []string
-		if typ != "" {
-			k := strings.LastIndexByte(typ, '.')
-			tp, tn := typ[:k], typ[k+1:]
-			if q := ix.pkgs[tp]; q != nil {
-				var names []string
-				for n, c := range q.consts {
-					if c.typ == tn {
-						names = append(names, n)
-					}
-				}
-				sort.Strings(names)
-				for _, n := range names {
-					declared = append(declared, q.consts[n].value)
-				}
-			}
-		}
-		sort.Strings(vals)
-		sort.Strings(declared)
 		if !firstE {
 			sb.WriteString(";\n  ")
 		}
@@ -855,4 +825,66 @@ func (g *gen) schemas() {
 	sb.WriteString("\nDefinition schemas : list (string * kind) := [\n  " + strings.Join(names, ";\n  ") + "].\n")
 	g.writeIfChanged("Schemas.v", sb.String())
 	g.params["schemas"] = idx
+}
+
+// enumRow: accepted values of the validator registered by r, its enumeration type, the declared constants of that type
+func (g *gen) enumRow(ix *astIndex, r regRow) (vals []string, typ string, declared []string, ok bool, use bool) {
+	use = true
+		p := ix.pkgs[r.pkg]
+		if p == nil || strings.Contains(r.fn, ".") && !strings.HasPrefix(r.fn, "types.") {
+			return nil, "", nil, false, false
+		}
+		fn := r.fn
+		pp := p
+		if strings.HasPrefix(fn, "types.") { // function of the version's types package
+			fn = strings.TrimPrefix(fn, "types.")
+			for _, f := range p.files {
+				if rel, ok := g.importsOf(f)["types"]; ok {
+					pp = ix.pkgs[rel]
+				}
+			}
+		}
+		vals, typ, ok = g.acceptedOf(ix, pp, fn)
+		if typ != "" {
+			k := strings.LastIndexByte(typ, '.')
+			tp, tn := typ[:k], typ[k+1:]
+			if q := ix.pkgs[tp]; q != nil {
+				var names []string
+				for n, c := range q.consts {
+					if c.typ == tn {
+						names = append(names, n)
+					}
+				}
+				sort.Strings(names)
+				for _, n := range names {
+					declared = append(declared, q.consts[n].value)
+				}
+			}
+			if len(declared) == 0 {
+				// constants of that type declared in another package (ocpp.ErrorCode values live in ocppj)
+				var rels2 []string
+				for rel := range ix.pkgs {
+					rels2 = append(rels2, rel)
+				}
+				sort.Strings(rels2)
+				for _, rel := range rels2 {
+					q := ix.pkgs[rel]
+					var names []string
+					for n, c := range q.consts {
+						if c.typ == tn && rel != tp {
+							names = append(names, n)
+						}
+					}
+					sort.Strings(names)
+					for _, n := range names {
+						if tn == "ErrorCode" {
+							declared = append(declared, q.consts[n].value)
+						}
+					}
+				}
+			}
+		}
+	sort.Strings(vals)
+	sort.Strings(declared)
+	return
 }
